@@ -96,6 +96,13 @@ def handle (payload : Json) : R Json := do
     let o ← asOptStr (← field mj "origin")
     let r ← asOptStr (fieldD mj "real" Json.null)
     pure (match o, r with | some o, some r => [(o, r)] | _, _ => [])).flatten
+  -- isort section per module name (place_module of the installed isort): optional
+  let secs : List (String × String) := (← (← asArr (← field payload "modules")).mapM fun mj => do
+    let n ← asStr (← field mj "name")
+    let sj ← asOptStr (fieldD mj "section" Json.null)
+    pure (match sj with | some sc => [(n, sc)] | none => [])).flatten
+  let sec : String → Section := fun n =>
+    match secs.find? (fun p => p.1 == n) with | some p => Section.ofString p.2 | none => .other
   let haveReal := !reals.isEmpty
   let real : String → String := fun o => match reals.find? (fun p => p.1 == o) with | some p => p.2 | none => o
   let config ← match fieldD payload "config" Json.null with
@@ -125,6 +132,7 @@ def handle (payload : Json) : R Json := do
     ("config", config),
     ("realNodup", Json.bool (decide (realFiles g real st.analysed).Nodup)),
     ("hyps", Json.mkObj [
+      ("sectionsAgree", if secs.isEmpty then Json.null else Json.bool (decide (Spec.SectionsAgree g sec))),
       ("originsCanonical", if haveReal then Json.bool (Spec.originsCanonicalB g real) else Json.null),
       ("flagsOK", Json.bool (decide (Spec.FlagsOK fl))),
       ("originInjective", Json.bool (decide (Spec.OriginInjective g))),
